@@ -1,7 +1,7 @@
 (* Proofs/Extends.v — C09 for the strict interpreter: every run only extends the graph
    (existing nodes, edges and attribute values are kept; new nodes are numbered after the old
    ones) and keeps it well formed (one edge per ordered pair, attribute names unique). *)
-From TSG Require Import Model.Strict Proofs.BaseFacts Proofs.Containers Proofs.StrictMeta.
+From TSG Require Import Model.Strict Proofs.BaseFacts Proofs.Containers Proofs.StrictMeta Proofs.MonadFacts.
 From Coq Require Import Sorted.
 
 Definition attrs_ext (m m' : amap) : Prop := forall k v, alist_get k m = Some v -> alist_get k m' = Some v.
@@ -79,7 +79,7 @@ Qed.
 
 (* ---- the admissible predicate ---- *)
 Definition ext_ok {A} (m : M sstate A) : Prop :=
-  forall s a s', graph_wf (s_graph s) -> m s = Ok (a, s') ->
+  forall s p a s' p', graph_wf (s_graph s) -> m s p = Ok (a, s', p') ->
     graph_wf (s_graph s') /\ graph_ext (s_graph s) (s_graph s').
 
 Definition call_extends (call : ident -> graph -> list value -> res (value * graph)) : Prop :=
@@ -91,45 +91,45 @@ Section ExtStrict.
   Variable fl : file.
   Variable cfg : config.
   Variable glob : globals.
-  Variable budget : option N.
   Variable regexes : list rx.
   Variable find : rx -> str -> option (list (option (N * N))).
   Variable call : ident -> graph -> list value -> res (value * graph).
   Hypothesis Hcall : call_extends call.
 
   Lemma ext_ret A (a : A) : ext_ok (ret a).
-  Proof. intros s a' s' Hwf H. inversion H; subst. split; [exact Hwf|apply graph_ext_refl]. Qed.
+  Proof. intros s p a' s' p' Hwf H. apply ret_ok in H as (_ & -> & _). split; [exact Hwf|apply graph_ext_refl]. Qed.
   Lemma ext_bind A B (m : M sstate A) (f : A -> M sstate B) : ext_ok m -> (forall a, ext_ok (f a)) -> ext_ok (bind m f).
   Proof.
-    intros Hm Hf s b s' Hwf H. unfold bind in H. destruct (m s) as [[a s1]| | |] eqn:E; try discriminate.
-    destruct (Hm _ _ _ Hwf E) as [W1 E1]. destruct (Hf a _ _ _ W1 H) as [W2 E2].
+    intros Hm Hf s p b s' p' Hwf H. apply bind_ok in H as (a & s1 & p1 & E & H).
+    destruct (Hm _ _ _ _ _ Hwf E) as [W1 E1]. destruct (Hf a _ _ _ _ _ W1 H) as [W2 E2].
     split; [exact W2|eapply graph_ext_trans; eauto].
   Qed.
-  Lemma ext_noresult A (m : M sstate A) : (forall s a s', m s <> Ok (a, s')) -> ext_ok m.
-  Proof. intros H s a s' _ E. exfalso. eapply H; eauto. Qed.
+  Lemma ext_noresult A (m : M sstate A) : (forall s p a s' p', m s p <> Ok (a, s', p')) -> ext_ok m.
+  Proof. intros H s p a s' p' _ E. exfalso. eapply H; eauto. Qed.
   Lemma ext_ctx A c (m : M sstate A) : ext_ok m -> ext_ok (ctx_wrap c m).
-  Proof.
-    intros Hm s a s' Hwf H. unfold ctx_wrap in H. destruct (m s) as [[a1 s1]| | |] eqn:E; try discriminate.
-    inversion H; subst. eapply Hm; eauto.
-  Qed.
+  Proof. intros Hm s p a s' p' Hwf H. apply ctx_wrap_ok in H. eapply Hm; eauto. Qed.
   Lemma ext_same_graph A (m : M sstate A) :
-    (forall s a s', m s = Ok (a, s') -> s_graph s' = s_graph s) -> ext_ok m.
-  Proof. intros H s a s' Hwf E. rewrite (H _ _ _ E). split; [exact Hwf|apply graph_ext_refl]. Qed.
+    (forall s p a s' p', m s p = Ok (a, s', p') -> s_graph s' = s_graph s) -> ext_ok m.
+  Proof. intros H s p a s' p' Hwf E. rewrite (H _ _ _ _ _ E). split; [exact Hwf|apply graph_ext_refl]. Qed.
+
+  Ltac inv_set H := unfold set_graph in H; apply modify_ok in H as (-> & _); cbn [s_graph].
 
   Lemma ext_add_node : ext_ok add_node.
   Proof.
-    intros s n s' Hwf H. unfold add_node, bind, get_state, set_graph, ret, add_graph_node in H. cbn in H.
-    inversion H; subst. cbn [s_graph]. split; [apply graph_wf_app_new, Hwf|]. apply (proj1 (add_graph_node_ext (s_graph s))).
+    intros s p n s' p' Hwf H. unfold add_node in H. apply bind_ok in H as (s0 & s1 & p1 & E & H). apply get_ok in E as (-> & -> & ->).
+    unfold add_graph_node in H. apply bind_ok in H as (u & s2 & p2 & E & H). apply ret_ok in H as (_ & -> & _). inv_set E.
+    split; [apply graph_wf_app_new, Hwf|]. apply (proj1 (add_graph_node_ext (s_graph s))).
   Qed.
 
   Lemma ext_add_attr tgt k v : ext_ok (add_attr tgt k v).
   Proof.
-    intros s a s' Hwf H. unfold add_attr, bind, get_state in H. cbn beta iota in H. destruct tgt as [n|x y].
+    intros s p a s' p' Hwf H. unfold add_attr in H. apply bind_ok in H as (s0 & s1 & p1 & E & H). apply get_ok in E as (-> & -> & ->).
+    destruct tgt as [n|x y].
     - destruct (gnode_at (s_graph s) n) as [nd|] eqn:E; [|discriminate].
       pose proof (gnode_at_wf _ _ _ Hwf E) as (Ha & He & Hea).
       pose proof (attrs_add_wf (g_attrs nd) k v Ha) as Hw. pose proof (attrs_add_ext (g_attrs nd) k v) as Hx.
       destruct (attrs_add (g_attrs nd) k v) as [m' c]. cbn [fst snd] in *. destruct c; [discriminate|].
-      unfold set_graph in H. inversion H; subst. cbn [s_graph]. split.
+      inv_set H. split.
       + apply graph_update_wf; [exact Hwf|]. intros n0 (_ & H1 & H2). repeat split; assumption.
       + apply graph_update_ext. intros n0 Hn0. rewrite E in Hn0. inversion Hn0; subst. split; cbn; [apply Hx; reflexivity|apply edges_ext_refl].
     - destruct (gnode_at (s_graph s) x) as [nd|] eqn:E; [|discriminate].
@@ -137,7 +137,7 @@ Section ExtStrict.
       destruct (edges_get y (g_edges nd)) as [m|] eqn:E2; [|discriminate].
       pose proof (attrs_add_wf m k v (edges_get_attrs_wf _ _ _ Hea E2)) as Hw. pose proof (attrs_add_ext m k v) as Hx.
       destruct (attrs_add m k v) as [m' c]. cbn [fst snd] in *. destruct c; [discriminate|].
-      unfold set_graph in H. inversion H; subst. cbn [s_graph]. split.
+      inv_set H. split.
       + apply graph_update_wf; [exact Hwf|]. intros n0 (H0 & _ & _). repeat split; cbn.
         * exact H0.
         * unfold edges_wf. rewrite edges_set_sinks. exact He.
@@ -148,11 +148,13 @@ Section ExtStrict.
 
   Lemma ext_add_edge a b : ext_ok (add_edge a b).
   Proof.
-    intros s r s' Hwf H. unfold add_edge, bind, get_state, graph_add_edge in H. cbn beta iota in H.
+    intros s p r s' p' Hwf H. unfold add_edge in H. apply bind_ok in H as (s0 & s1 & p1 & E & H). apply get_ok in E as (-> & -> & ->).
+    unfold graph_add_edge in H.
     destruct (gnode_at (s_graph s) a) as [nd|] eqn:E; [|discriminate].
     pose proof (gnode_at_wf _ _ _ Hwf E) as (Ha & He & Hea).
     pose proof (edges_add_wf b _ He) as Hw. pose proof (edges_add_attrs_wf b _ Hea) as Hw2. pose proof (edges_add_ext b _ He) as Hx.
-    destruct (edges_add b (g_edges nd)) as [isnew es]. cbn [snd] in *. unfold set_graph, ret in H. cbn in H. inversion H; subst. cbn [s_graph].
+    destruct (edges_add b (g_edges nd)) as [isnew es]. cbn [snd] in *.
+    apply bind_ok in H as (u & s2 & p2 & E2 & H). apply ret_ok in H as (_ & -> & _). inv_set E2.
     split.
     - apply graph_update_wf; [exact Hwf|]. intros n0 (H0 & _ & _). repeat split; assumption.
     - apply graph_update_ext. intros n0 Hn0. rewrite E in Hn0. inversion Hn0; subst. split; cbn; [apply attrs_ext_refl|exact Hx].
@@ -160,30 +162,29 @@ Section ExtStrict.
 
   Lemma ext_call f args : ext_ok (call_function call f args).
   Proof.
-    intros s v s' Hwf H. unfold call_function, bind, get_state in H. cbn beta iota in H.
+    intros s p v s' p' Hwf H. unfold call_function in H. apply bind_ok in H as (s0 & s1 & p1 & E & H). apply get_ok in E as (-> & -> & ->).
     destruct (call f (s_graph s) args) as [[v' g']| | |] eqn:E; try discriminate.
-    unfold set_graph, ret in H. cbn in H. inversion H; subst. cbn [s_graph]. eapply Hcall; eauto.
+    apply bind_ok in H as (u & s2 & p2 & E2 & H). apply ret_ok in H as (_ & -> & _). inv_set E2. eapply Hcall; eauto.
   Qed.
 
-  Lemma ext_poll l : ext_ok (poll budget l).
-  Proof.
-    apply ext_same_graph. intros s a s' H. unfold poll in H. destruct (poll_step budget l (s_polls s)) as [p' c].
-    destruct c; [discriminate|]. inversion H; subst. reflexivity.
-  Qed.
+  Lemma ext_poll l : ext_ok (@poll sstate l).
+  Proof. apply ext_same_graph. intros s p a s' p' H. apply poll_ok in H as (-> & _). reflexivity. Qed.
 
-  Theorem exec_file_extends fuel sts ms : ext_ok (exec_file t fl cfg glob budget regexes find call fuel sts ms).
+  Ltac same_modify := apply ext_same_graph; intros s p a s' p' H; apply modify_ok in H as (-> & _); reflexivity.
+
+  Theorem exec_file_extends fuel sts ms : ext_ok (exec_file t fl cfg glob regexes find call fuel sts ms).
   Proof.
-    apply (Phi_exec_file t fl cfg glob budget regexes find call (@ext_ok)).
+    apply (Phi_exec_file t fl cfg glob regexes find call (@ext_ok)).
     - exact ext_ret.
     - exact ext_bind.
-    - intros A e _. apply ext_noresult. intros s a s'. discriminate.
-    - intros A p. apply ext_noresult. intros s a s'. discriminate.
-    - intros A. apply ext_noresult. intros s a s'. discriminate.
+    - intros A e _. apply ext_noresult. intros s p a s' p'. discriminate.
+    - intros A x. apply ext_noresult. intros s p a s' p'. discriminate.
+    - intros A. apply ext_noresult. intros s p a s' p'. discriminate.
     - exact ext_ctx.
-    - apply ext_same_graph. intros s a s' H. inversion H; subst. reflexivity.
-    - intros l. apply ext_same_graph. intros s a s' H. inversion H; subst. reflexivity.
-    - intros l. apply ext_same_graph. intros s a s' H. inversion H; subst. reflexivity.
-    - intros l. apply ext_same_graph. intros s a s' H. inversion H; subst. reflexivity.
+    - apply ext_same_graph. intros s p a s' p' H. apply get_ok in H as (_ & -> & _). reflexivity.
+    - intros l. unfold set_locals. same_modify.
+    - intros l. unfold set_scoped. same_modify.
+    - intros l. unfold set_params. same_modify.
     - exact ext_poll.
     - exact ext_add_node.
     - exact ext_add_attr.
@@ -193,12 +194,12 @@ Section ExtStrict.
 End ExtStrict.
 
 (* whole strict run: File::execute_into in strict mode on a pre-populated graph g0 *)
-Theorem run_strict_extends_lemma {rx} t fl cfg supplied budget (regexes : list rx) find call fuel matches g0 s :
+Theorem run_strict_extends_lemma {rx} t fl cfg supplied budget (regexes : list rx) find call fuel matches g0 s p :
   call_extends call -> graph_wf g0 ->
-  run_strict t fl cfg supplied budget regexes find call fuel matches g0 = Ok s ->
+  run_strict t fl cfg supplied budget regexes find call fuel matches g0 = Ok (s, p) ->
   graph_wf (s_graph s) /\ graph_ext g0 (s_graph s).
 Proof.
   intros Hc Hwf. unfold run_strict. destruct (check_globals (f_globals fl) (globals_nested supplied)) as [glob| | |]; try discriminate.
-  destruct (exec_file _ _ _ _ _ _ _ _ _ _ _ (sinit g0)) as [[u s1]| | |] eqn:E; try discriminate.
-  intros H; inversion H; subst. exact (exec_file_extends t fl cfg glob budget regexes find call Hc fuel _ _ (sinit g0) u s Hwf E).
+  destruct (exec_file _ _ _ _ _ _ _ _ _ _ (sinit g0) (polls0 budget)) as [[[u s1] p1]| | |] eqn:E; try discriminate.
+  intros H; inversion H; subst. exact (exec_file_extends t fl cfg glob regexes find call Hc fuel _ _ (sinit g0) _ u s p Hwf E).
 Qed.
